@@ -31,6 +31,8 @@ type Config struct {
 	NoEcho bool
 	// EmptyOverride enables the wrapper kind whose full message is "".
 	EmptyOverride bool
+	// Alias: a multi-cause node may hold the same object in two branches.
+	Alias bool
 	// Verbs: printf-style constructors use other verbs than the default
 	// ones for some arguments (%q, %#v, %+v, %x ...).
 	Verbs bool
@@ -228,10 +230,19 @@ func (g *Gen) fill(k Kind, depth int, hidden bool) *Node {
 	for _, b := range ki.NInts {
 		n.N = append(n.N, g.T.Draw(b))
 	}
-	if k == WTelemetry && g.T.Bool(1, 4) {
-		// the same key twice in one annotation
-		n.S[1].V = n.S[0].V
-		n.S[1].Tok = ""
+	if k == WTelemetry {
+		switch g.T.Draw(8) {
+		case 0, 1:
+			// the same key twice in one annotation
+			n.S[1].V = n.S[0].V
+			n.S[1].Tok = ""
+		case 2:
+			// one key only
+			n.S[1] = Str{Safe: true}
+		case 3:
+			// a variadic call with a computed, empty list of keys
+			n.S[0], n.S[1] = Str{Safe: true}, Str{Safe: true}
+		}
 	}
 	if k == WUNote && n.N[0] == 0 {
 		n.S[0].Tok = "" // no note: the slot is unused
@@ -336,6 +347,17 @@ func (g *Gen) fill(k Kind, depth int, hidden bool) *Node {
 		for i := 0; i < nk; i++ {
 			n.Kids = append(n.Kids, g.node(depth+1, hidden))
 		}
+		if g.Cfg.Alias && nk >= 2 && g.T.Bool(1, 6) {
+			// the same error object in two branches (an error joined with
+			// itself, the same failure collected twice)
+			i := g.T.Draw(nk - 1)
+			j := i + 1 + g.T.Draw(nk-1-i)
+			if n.Kids[i].AliasOf == 0 {
+				c := n.Kids[i].AliasCopy()
+				c.AliasOf = i + 1
+				n.Kids[j] = c
+			}
+		}
 	}
 	return n
 }
@@ -403,6 +425,13 @@ func cloneNode(n *Node) *Node {
 	c.N = append([]int(nil), n.N...)
 	c.Kids, c.Hid = nil, nil
 	for _, k := range n.Kids {
+		if k.AliasOf > 0 {
+			// stays an alias, now of the cloned sibling
+			a := c.Kids[k.AliasOf-1].AliasCopy()
+			a.AliasOf = k.AliasOf
+			c.Kids = append(c.Kids, a)
+			continue
+		}
 		c.Kids = append(c.Kids, cloneNode(k))
 	}
 	for _, h := range n.Hid {
@@ -460,6 +489,11 @@ func (b *Builder) build(n *Node) error { return b.build0(n) }
 func (b *Builder) buildNode(n *Node) error {
 	kids := make([]error, len(n.Kids))
 	for i, k := range n.Kids {
+		if k.AliasOf > 0 {
+			kids[i] = kids[k.AliasOf-1]
+			b.mapBuilt(k, n.Kids[k.AliasOf-1])
+			continue
+		}
 		// siblings are built through different (non-inlined) call paths of
 		// equal depth, as in real programs, so that their captured stacks
 		// share the innermost and outermost frames but not the middle ones
@@ -485,6 +519,18 @@ func (b *Builder) buildNode(n *Node) error {
 	}
 	b.Built[n] = e
 	return e
+}
+
+// mapBuilt records, for every node of an aliased copy, the object built for
+// the corresponding node of the original.
+func (b *Builder) mapBuilt(clone, orig *Node) {
+	b.Built[clone] = b.Built[orig]
+	for i := range clone.Kids {
+		b.mapBuilt(clone.Kids[i], orig.Kids[i])
+	}
+	for i := range clone.Hid {
+		b.mapBuilt(clone.Hid[i], orig.Hid[i])
+	}
 }
 
 // DeepChain builds a chain of n simple library wrappers over a leaf (depth
